@@ -393,6 +393,8 @@ pub struct MarketLive<const A: usize, const L: usize> {
     pub market: Market<A, L>,
     pub shadows: Vec<OrderBook<L>>,
     pub trading: bool,
+    /// the flag requested for each asset's book (market-level toggles set all, book-level ones their own)
+    pub tradings: Vec<bool>,
     pub scratch: std::path::PathBuf,
     pub dead: bool,
 }
@@ -525,7 +527,7 @@ impl<const A: usize, const L: usize> MarketLive<A, L> {
         let mut s = format!("r={} sh={} q={} n={}", res, sh, q, A);
         for a in 0..A {
             s.push_str(" | ");
-            s.push_str(&observe(self.market.get_order_book(a), self.trading));
+            s.push_str(&observe(self.market.get_order_book(a), self.tradings[a]));
         }
         s
     }
@@ -542,6 +544,13 @@ impl<const A: usize, const L: usize> MarketLive<A, L> {
         let mut res = "u".to_string();
         let mut sh = "ok".to_string();
         match op {
+            MOp::On(a, Op::Trading(b)) => {
+                // a toggle through the book handle `get_order_book_mut(a)`
+                let bk = self.market.get_order_book_mut(*a);
+                if *b { bk.enable_trading() } else { bk.disable_trading() }
+                if *b { self.shadows[*a].enable_trading() } else { self.shadows[*a].disable_trading() }
+                self.tradings[*a] = *b;
+            }
             MOp::On(a, bop) => {
                 let o = self.market_apply(*a, bop);
                 let os = book_apply(&mut self.shadows[*a], bop);
@@ -553,12 +562,13 @@ impl<const A: usize, const L: usize> MarketLive<A, L> {
                 if *b { self.market.enable_trading() } else { self.market.disable_trading() }
                 for s in self.shadows.iter_mut() { if *b { s.enable_trading() } else { s.disable_trading() } }
                 self.trading = *b;
+                for x in self.tradings.iter_mut() { *x = *b; }
             }
             MOp::ResetVol => { self.market.reset_trade_vols(); for s in self.shadows.iter_mut() { s.reset_trade_vol(); } }
             MOp::Reload(m) => { if let Err(e) = self.reload(m) { sh = format!("RELOAD_ERR:{}", e.replace(' ', "_")); } }
         }
         if sh == "ok" {
-            let eq = (0..A).all(|a| observe(self.market.get_order_book(a), self.trading) == observe(&self.shadows[a], self.trading));
+            let eq = (0..A).all(|a| observe(self.market.get_order_book(a), self.tradings[a]) == observe(&self.shadows[a], self.tradings[a]));
             if !eq { sh = "DIVERGE".into(); }
         }
         let q = match self.queries_ok() { None => "ok".to_string(), Some(n) => format!("BAD:{}", n) };
@@ -614,8 +624,15 @@ impl MGen {
             let v = if self.chance(0.4) { None } else { Some(self.rng.gen_range(1..12)) };
             if self.chance(0.5) { ops.push(MOp::On(a, Op::Modify(id, p, v))); } else { ops.push(MOp::On(a, Op::Ev(Ev::Modify(id, p, v)))); }
         } else if k < 92 {
-            self.trading = !self.trading;
-            ops.push(MOp::Trading(self.trading));
+            if self.chance(0.45) {
+                // book-level toggle on one asset, mixed with the market-level ones
+                let on = self.chance(0.5);
+                ops.push(MOp::On(a, Op::Trading(on)));
+            } else {
+                // requested value independent of what was requested before (redundant requests included)
+                self.trading = self.chance(0.5);
+                ops.push(MOp::Trading(self.trading));
+            }
         } else if k < 94 {
             ops.push(MOp::ResetVol);
         } else if k < 98 && (self.profile == "reload" || self.chance(0.3)) {
@@ -660,7 +677,7 @@ pub fn run_market<const A: usize, const L: usize, W: Write>(h: &MarketHeader, g:
     let ticks: [u32; A] = std::array::from_fn(|i| h.ticks[i]);
     let market = Market::<A, L>::new(h.t0, ticks, h.trading);
     let shadows = h.ticks.iter().map(|t| OrderBook::<L>::new(h.t0, *t, h.trading)).collect();
-    let mut live = MarketLive { market, shadows, trading: h.trading, scratch, dead: false };
+    let mut live = MarketLive { market, shadows, trading: h.trading, tradings: vec![h.trading; A], scratch, dead: false };
     writeln!(w, "I {}", live.obs("u", "ok", "ok")).unwrap();
     let mut emit = |live: &mut MarketLive<A, L>, op: &MOp, w: &mut W| {
         writeln!(w, "O {}", op.line()).unwrap();
